@@ -1,3 +1,3 @@
 From Coq Require Import Extraction ExtrOcamlBasic.
 From Glb Require Import Check.C11.
-Extraction "model.ml" check_history verdict_ok.
+Extraction "model.ml" check_history verdict_ok acc0 step_acc verdict_of_acc.
